@@ -470,6 +470,8 @@ def convert(v, ft, tt, tgt, trig=None):
             lo, hi = int_range(tt, tgt)
             if i < lo or i > hi:
                 raise Undefined('f2i')
+            if trig is not None and v < 0 and i == 0 and lo == 0:
+                trig.add('neg-fraction-to-unsigned')
             return i
         if tt == FLOAT:
             return f32(v)
@@ -490,7 +492,7 @@ BINOPS = ('*', '/', '%', '+', '-', '<<', '>>', '<', '>', '<=', '>=', '==', '!=',
 UNOPS = ('+', '-', '~', '!')
 
 # known-defect trigger conditions (a case that met one is attributed to that family if it fails)
-TRIGGERS = ('logical', 'to-bool', 'int-to-float32', 'f-suffix', 'float-cond')
+TRIGGERS = ('logical', 'to-bool', 'int-to-float32', 'f-suffix', 'float-cond', 'neg-fraction-to-unsigned')
 
 
 class Res(namedtuple('Res', 'type value')):
